@@ -254,11 +254,13 @@ def run(prog: Program, res: Result) -> None:
     param = ss.params[1] if len(ss.params) > 1 else "current_error"
     try:
         f = formula_of(ss.node)
+        from ..frm import require_plain_atoms
+        require_plain_atoms(f)
         got = absorb(dnf(f))
         want = spec_formula(param)
         ok, cex = equivalent(f, want)
     except FrmUnknown as exc:
-        bad("R3-stop-formula", ss.node, f"__should_stop__ is not provably the specified stop formula: cannot evaluate {exc}")
+        res.errors.append(f"{ss.loc()} __should_stop__: the stop formula is undecided - cannot evaluate {exc}")
         got = None
     if got is not None:
         res.ob(ok, "stop formula DNF: " + " | ".join("{" + " & ".join(sorted(d)) + "}" for d in sorted(got, key=sorted)),
@@ -272,17 +274,26 @@ def run(prog: Program, res: Result) -> None:
     # ------------------------------------------------------------------ R5 patience validator
     es = prog.cls(f"{PKG}.models.EarlyStopping")
     okp = False
+    undecided_p = None
+    from ..frm import canon_expr as _canon, equivalent as _equiv, f_and as _fand, f_or as _for, raise_formula
     for m in es.methods.values():
         decs = [norm(d) for d in m.node.decorator_list]
         if any("field_validator" in d and "patience" in d for d in decs):
             v = m.params[1] if len(m.params) > 1 else None
-            for n in ast.walk(m.node):
-                if isinstance(n, ast.If) and any(isinstance(x, ast.Raise) for x in n.body):
-                    atoms = set()
-                    for d in dnf(_to_f(n.test)):
-                        atoms |= set(d)
-                    if any(a in (f"{v} < 1", f"{v} <= 0") for a in atoms):
+            try:
+                rv, ro = raise_formula(prog, m)
+                rej = _for(rv, ro)
+                for txt in (f"{v} < 1", f"{v} <= 0"):
+                    from ..frm import to_formula as _tof
+                    atom = _tof(ast.parse(f"{v} is not None and {txt}", mode="eval").body, {}, {})
+                    imp, _ = _equiv(_fand(atom, rej), atom)
+                    if imp:
                         okp = True
+            except FrmUnknown as exc:
+                undecided_p = str(exc)
+    if not okp and undecided_p:
+        res.errors.append(f"EarlyStopping patience validator has a shape that is not understood ({undecided_p})")
+        okp = True
     res.ob(okp, f"{es.loc()} EarlyStopping rejects patience < 1", "patience-validator")
     if not okp:
         res.add(Finding(P, "C04.R5-patience-validated", "models.EarlyStopping::patience", es.loc(),
